@@ -1,4 +1,5 @@
 import IrefVerif.Lemmas.Span
+import IrefVerif.Model.RelClass
 
 /-!
 The two state machines of `parse.rs` (`scheme_authority_or_path`, `authority_or_path`)
@@ -34,11 +35,6 @@ theorem apGo_authority (l : Text) : apGo .authority l = (.authority, spanLen nSQ
     by_cases h : (c == cSlash || c == cQuest || c == cHash) = true
     · simp [h]
     · simp [h, ih, nSQH]
-
-def startsSS (l : Text) : Bool :=
-  match l with
-  | a :: b :: _ => a == cSlash && b == cSlash
-  | _ => false
 
 /-- `authority_or_path` from its start state -/
 theorem apGo_start (l : Text) :
